@@ -64,15 +64,23 @@ func CreateLevel(path string, h hash.Hash, rsum, dsum []byte, level int) (*File,
 		return nil, err
 	}
 
-	_, ret := f.Write(make([]byte, h.Size()*3))
+	if _, err := f.Write(make([]byte, h.Size()*3)); err != nil {
+		// Without room for the header there is no entry: a body written
+		// where the header belongs would later be finalised over.
+		f.Close()
+		os.Remove(name)
+		return nil, err
+	}
 
 	hd := Header{rsum, dsum, nil}
 	rd := flate.NewReader(f)
 	wr, err := flate.NewWriter(f, level)
-	if ret == nil {
-		ret = err
+	if err != nil {
+		f.Close()
+		os.Remove(name)
+		return nil, err
 	}
-	return &File{h, f, hd, rd, wr}, ret
+	return &File{h, f, hd, rd, wr}, nil
 }
 
 // Create a new cache file with the default compression level.
